@@ -1,8 +1,10 @@
 //! C16 replay: run one scenario with `n` elements on a thread with a 2 MiB stack.
 //! A stack overflow kills the process (SIGSEGV/SIGABRT) — the caller reads the exit status.
+//! Scenario names: "<light|fast>_<graph|dataset>_<spo|bc|gspo|bcd|cd>:<pos>" where pos in {g,s,p,o} is the position
+//! that takes n distinct values and whose (non-constant) matcher rejects every row; "nt_quoted_string".
 use sophia_api::prelude::*;
 use sophia_api::term::matcher::Any;
-use sophia_api::term::{SimpleTerm, BnodeId};
+use sophia_api::term::SimpleTerm;
 use sophia_inmem::dataset::{FastDataset, LightDataset};
 use sophia_inmem::graph::{FastGraph, LightGraph};
 use sophia_turtle::serializer::nt::NtSerializer;
@@ -15,70 +17,82 @@ fn iri(i: usize, pfx: &str) -> SimpleTerm<'static> {
 fn reject(_t: SimpleTerm) -> bool {
     false
 }
+fn reject_g(_t: Option<SimpleTerm>) -> bool {
+    false
+}
 
 fn scenario(name: &str, n: usize) -> i32 {
-    let s0 = iri(0, "s");
-    let p0 = iri(0, "p");
-    let g0 = iri(0, "g");
-    match name {
-        // graph iterators -------------------------------------------------------------
-        "light_graph_spo" | "fast_graph_spo" | "light_graph_bc" | "fast_graph_bc" => {
-            // n triples (s0, p0, o_i); SpoMatchingIterator via (Any, Any, reject); BcMatchingIterator via ([s0], Any, reject)
-            macro_rules! go {
-                ($G:ty) => {{
-                    let mut g = <$G>::new();
-                    for i in 0..n {
-                        g.insert(&s0, &p0, iri(i, "o")).unwrap();
-                    }
-                    let c = if name.ends_with("spo") {
-                        g.triples_matching(Any, Any, reject).count()
-                    } else {
-                        g.triples_matching([s0.clone()], Any, reject).count()
-                    };
-                    assert_eq!(c, 0);
-                }};
-            }
-            if name.starts_with("light") { go!(LightGraph) } else { go!(FastGraph) }
-            0
-        }
-        // dataset iterators -----------------------------------------------------------
-        "light_dataset_gspo" | "fast_dataset_gspo" | "light_dataset_bcd" | "fast_dataset_bcd" | "light_dataset_cd" | "fast_dataset_cd" => {
-            macro_rules! go {
-                ($D:ty) => {{
-                    let mut d = <$D>::new();
-                    for i in 0..n {
-                        d.insert(&s0, &p0, iri(i, "o"), Some(&g0)).unwrap();
-                    }
-                    let c = if name.ends_with("gspo") {
-                        d.quads_matching(Any, Any, reject, Any).count()
-                    } else if name.ends_with("bcd") {
-                        d.quads_matching(Any, Any, reject, [Some(g0.clone())]).count()
-                    } else {
-                        d.quads_matching([s0.clone()], Any, reject, [Some(g0.clone())]).count()
-                    };
-                    assert_eq!(c, 0);
-                }};
-            }
-            if name.starts_with("light") { go!(LightDataset) } else { go!(FastDataset) }
-            0
-        }
-        // N-Triples escaper -------------------------------------------------------------
-        "nt_quoted_string" => {
-            let lex: String = std::iter::repeat('\n').take(n).collect();
-            let lit = SimpleTerm::LiteralDatatype(lex.into(), sophia_api::ns::xsd::string.iri().unwrap().map_unchecked(Into::into));
-            let g = vec![[s0.clone(), p0.clone(), lit]];
-            let mut ser = NtSerializer::new_stringifier();
-            ser.serialize_graph(&g).unwrap();
-            let out = ser.as_str();
-            assert!(out.len() >= 2 * n);
-            0
-        }
-        _ => {
-            eprintln!("unknown c16 scenario {name}");
-            let _ = BnodeId::new_unchecked("x");
-            2
-        }
+    if name == "nt_quoted_string" {
+        let lex: String = std::iter::repeat('\n').take(n).collect();
+        let lit = SimpleTerm::LiteralDatatype(lex.into(), sophia_api::ns::xsd::string.iri().unwrap().map_unchecked(Into::into));
+        let g = vec![[iri(0, "s"), iri(0, "p"), lit]];
+        let mut ser = NtSerializer::new_stringifier();
+        ser.serialize_graph(&g).unwrap();
+        assert!(ser.as_str().len() >= 2 * n);
+        return 0;
     }
+    let (base, pos) = match name.split_once(':') {
+        Some((b, p)) => (b, p),
+        None => (name, "o"),
+    };
+    let t = |k: &str, i: usize| if k == pos { iri(i, k) } else { iri(0, k) };
+    let (s0, p0, g0) = (iri(0, "s"), iri(0, "p"), iri(0, "g"));
+    let light = base.starts_with("light");
+    macro_rules! graph {
+        ($G:ty) => {{
+            let mut g = <$G>::new();
+            for i in 0..n {
+                g.insert(t("s", i), t("p", i), t("o", i)).unwrap();
+            }
+            let c = match (base.ends_with("_bc"), pos) {
+                (false, "s") => g.triples_matching(reject, Any, Any).count(),
+                (false, "p") => g.triples_matching(Any, reject, Any).count(),
+                (false, _) => g.triples_matching(Any, Any, reject).count(),
+                (true, "p") => g.triples_matching([s0.clone()], reject, Any).count(),
+                (true, _) => g.triples_matching([s0.clone()], Any, reject).count(),
+            };
+            assert_eq!(c, 0);
+        }};
+    }
+    macro_rules! dataset {
+        ($D:ty) => {{
+            let mut d = <$D>::new();
+            for i in 0..n {
+                d.insert(t("s", i), t("p", i), t("o", i), Some(t("g", i))).unwrap();
+            }
+            let gc = [Some(g0.clone())];
+            let c = if base.ends_with("_gspo") {
+                match pos {
+                    "g" => d.quads_matching(Any, Any, Any, reject_g).count(),
+                    "s" => d.quads_matching(reject, Any, Any, Any).count(),
+                    "p" => d.quads_matching(Any, reject, Any, Any).count(),
+                    _ => d.quads_matching(Any, Any, reject, Any).count(),
+                }
+            } else if base.ends_with("_bcd") {
+                match pos {
+                    "s" => d.quads_matching(reject, Any, Any, gc).count(),
+                    "p" => d.quads_matching(Any, reject, Any, gc).count(),
+                    _ => d.quads_matching(Any, Any, reject, gc).count(),
+                }
+            } else {
+                match pos {
+                    "p" => d.quads_matching([s0.clone()], reject, Any, gc).count(),
+                    _ => d.quads_matching([s0.clone()], Any, reject, gc).count(),
+                }
+            };
+            assert_eq!(c, 0);
+        }};
+    }
+    let _ = &p0;
+    if base.contains("_graph_") {
+        if light { graph!(LightGraph) } else { graph!(FastGraph) }
+    } else if base.contains("_dataset_") {
+        if light { dataset!(LightDataset) } else { dataset!(FastDataset) }
+    } else {
+        eprintln!("unknown c16 scenario {name}");
+        return 2;
+    }
+    0
 }
 
 pub fn main(args: &[String]) -> i32 {
